@@ -368,3 +368,8 @@ MUTATIONS += [
  dict(name="benign-c04-balance-test-flipped", props=["C04"], benign=True, file="radix-engine-interface/src/blueprints/resource/resource.rs",
       find="        if self.amount < amount_to_take {", replace="        if amount_to_take > self.amount {"),
 ]
+MUTATIONS += [
+ dict(name="benign-c47-bounds-test-flipped-and-positive-form", props=["C47"], benign=True, file="radix-engine/src/vm/wasm/wasmi.rs",
+      find="    if ptr > data.len() || ptr + len > data.len() {\n        return Err(InvokeError::SelfError(WasmRuntimeError::MemoryAccessError));\n    }\n    Ok(data[ptr..ptr + len].to_vec())",
+      replace="    if data.len() >= ptr && data.len() >= ptr + len {\n        Ok(data[ptr..ptr + len].to_vec())\n    } else {\n        Err(InvokeError::SelfError(WasmRuntimeError::MemoryAccessError))\n    }"),
+]
